@@ -56,6 +56,36 @@ type Case struct {
 	Gap  int    `json:"gap"`  // ... so that it ends Gap bytes before the end of the binary (clipped at offset 0)
 	Tree string `json:"tree"` // project tree, see buildTrees
 	Pack bool   `json:"pack"` // true: target written by CLIPacker.Pack; false: target assembled as binary+marker+archive(tree)
+	// Pack only: how the project directory is spelled on the command line (the same directory every time)
+	Spell int `json:"spell,omitempty"`
+}
+
+// spellings of one directory: 0 clean absolute, then trailing separator, /./ inside, /x/../ inside, doubled separator,
+// relative to the working directory, ./relative
+const nSpell = 7
+
+func spell(dir string, how int) string {
+	parent, base := filepath.Dir(dir), filepath.Base(dir)
+	switch how % nSpell {
+	case 1:
+		return dir + "/"
+	case 2:
+		return parent + "/./" + base
+	case 3:
+		return parent + "/" + base + "/../" + base
+	case 4:
+		return parent + "//" + base
+	case 5, 6:
+		if wd, err := os.Getwd(); err == nil {
+			if rel, err := filepath.Rel(wd, dir); err == nil {
+				if how%nSpell == 6 {
+					return "./" + rel
+				}
+				return rel
+			}
+		}
+	}
+	return dir
 }
 
 func TestMain(m *testing.M) { hx.Main(m, "C20", rule) }
@@ -461,7 +491,7 @@ func runCase(c Case) *hx.Failure {
 	}
 	hashNear := bytes.IndexByte(bin[lo:], '#') >= 0
 	nontrivial := nearB || hashNear
-	key := fmt.Sprintf("%d|%s|%q|%d|%s|%v", c.Len, c.Base, c.Frag, c.Gap, c.Tree, c.Pack)
+	key := fmt.Sprintf("%d|%s|%q|%d|%s|%v|%d", c.Len, c.Base, c.Frag, c.Gap, c.Tree, c.Pack, c.Spell)
 	classes := []string{"base." + c.Base, "tree." + c.Tree}
 	if c.Pack {
 		classes = append(classes, "mode.pack")
@@ -506,11 +536,13 @@ func runCase(c Case) *hx.Failure {
 		}
 		os.Remove(e.dst)
 		var perr error
-		if f := hx.Guard(func() { perr = doPack(tr.dir, e.src, e.dst, tr.entry) }); f != nil {
+		pdir := spell(tr.dir, c.Spell)
+		hx.E.Class(fmt.Sprintf("pack.dir-spelling.%d", c.Spell%nSpell), 1)
+		if f := hx.Guard(func() { perr = doPack(pdir, e.src, e.dst, tr.entry) }); f != nil {
 			return f
 		}
 		if perr != nil {
-			return hx.Failf("pack-error", "%s: Pack returned %v", key, perr)
+			return hx.Failf("pack-error", "%s: Pack (-dir %q) returned %v", key, pdir, perr)
 		}
 		got, err := os.ReadFile(e.dst)
 		if err != nil {
@@ -525,7 +557,7 @@ func runCase(c Case) *hx.Failure {
 			return hx.Failf("pack-archive-unreadable", "%s: archive at offset %d: %v", key, len(bin)+len(marker), err)
 		}
 		if d := diffFiles(files, tr.want); d != "" {
-			return hx.Failf("pack-archive-content", "%s: archive written by Pack differs from the tree: %s", key, d)
+			return hx.Failf("pack-archive-content", "%s: archive written by Pack (-dir %q) differs from the tree: %s", key, pdir, d)
 		}
 		if !bytes.Equal(got, whole) {
 			// the assembled mode relies on this
@@ -639,7 +671,7 @@ func TestExhaustive(t *testing.T) {
 		for _, b := range sb {
 			for l := 0; l <= n; l++ {
 				i++
-				c := Case{Len: l, Base: b, Tree: treeNames[(l/7+i)%len(treeNames)], Pack: i%5 == 0}
+				c := Case{Len: l, Base: b, Tree: treeNames[(l/7+i)%len(treeNames)], Pack: i%5 == 0, Spell: (i / 5) % nSpell}
 				if !yield(c) {
 					return
 				}
@@ -656,7 +688,7 @@ func TestExhaustive(t *testing.T) {
 			for _, tn := range treeNames {
 				for _, l := range wl {
 					i++
-					if !yield(Case{Len: l, Base: b, Tree: tn, Pack: i%3 == 0}) {
+					if !yield(Case{Len: l, Base: b, Tree: tn, Pack: i%3 == 0, Spell: (i / 3) % nSpell}) {
 						return
 					}
 				}
@@ -682,7 +714,7 @@ func TestExhaustive(t *testing.T) {
 						if (hx.Thorough() && (l+g+len(fr))%2 != 0) || (!hx.Thorough() && (l+g+len(fr))%3 != 0) {
 							continue // a half (thorough) / a third (quick) of the product; every length, gap and fragment occurs
 						}
-						if !yield(Case{Len: l, Base: b, Frag: fr, Gap: g, Tree: treeNames[i%len(treeNames)], Pack: i%16 == 0}) {
+						if !yield(Case{Len: l, Base: b, Frag: fr, Gap: g, Tree: treeNames[i%len(treeNames)], Pack: i%16 == 0, Spell: (i / 16) % nSpell}) {
 							return
 						}
 					}
@@ -732,6 +764,9 @@ func TestProp(t *testing.T) {
 		}
 		c.Tree = rapid.SampledFrom(treeNames).Draw(rt, "tree")
 		c.Pack = rapid.IntRange(0, 3).Draw(rt, "pack") == 0
+		if c.Pack {
+			c.Spell = rapid.IntRange(0, nSpell-1).Draw(rt, "spell")
+		}
 		return c
 	}, runCase)
 }
